@@ -53,6 +53,8 @@ RULE = ("abstract acyclic workflows by construction (<=5 components over <=3 sta
         "Non-trivial (valid) = >=2 components with >=1 reference and at least one extra or replication; non-trivial "
         "(fault) = every case; distinct = distinct (document, platform, fault position, variant).")
 ASSUMPTIONS = [
+    "route memory-primitive (graphFromFlowIR(primitive=True), the default of the inspection entry points) is used for "
+    "valid documents and for dangling-reference faults only",
     "'loads with validation' = the three routes named in the module docstring with their default validate=True; on "
     "the package route validateExperiment(checkExecutables=False) is part of loading (cycle detection lives there)",
     "graphFromFlowIR documents no exception; the FlowIRException family (raised explicitly by the FlowIRConcrete "
@@ -76,7 +78,7 @@ ASSUMPTIONS = [
 ]
 TIERS = {"quick": {"shards": 8, "budget": 150}, "thorough": {"shards": 16, "budget": 2700}}
 
-ROUTES = ("package", "conf", "memory")
+ROUTES = ("package", "conf", "memory", "memory-primitive")
 KIND_WEIGHTS = D.KINDS + ["unknown-key", "unknown-key", "mistyped", "mistyped", "mistyped", "undefined-variable"]
 LEFTOVER = re.compile(r"%\([a-zA-Z0-9_.-]+\)s")
 REF = re.compile(r"^(?:stage(\d+)\.)?([^/:]+)(?:/[^:]*)?:([a-z]+)$")
@@ -118,6 +120,11 @@ def load(route: str, doc, platform, ctx: Ctx):
                 g = experiment.model.graph.WorkflowGraph.graphFromFlowIR(D.clone(doc), {}, platform=platform,
                                                                         primitive=False)
                 return ("accepted", g)
+            if route == "memory-primitive":
+                # the default of graphFromFlowIR / configurationForExperiment: no replication
+                g = experiment.model.graph.WorkflowGraph.graphFromFlowIR(D.clone(doc), {}, platform=platform,
+                                                                        primitive=True)
+                return ("accepted", g)
             loc = ctx.mkdtemp()
             if route == "conf":
                 path = pkg.write_package(doc, loc)
@@ -146,7 +153,7 @@ def proper_rejection(route, e, platform, mdoc) -> bool:
     import experiment.model.errors as E
     if isinstance(e, E.ExperimentInvalidConfigurationError):
         return True
-    if route == "memory" and isinstance(e, E.FlowIRException):
+    if route in ("memory", "memory-primitive") and isinstance(e, E.FlowIRException):
         return True
     if isinstance(e, E.UndefinedPlatformError) and platform and not plat_declared(mdoc, platform):
         return True
@@ -308,6 +315,11 @@ def check_fault(case, ctx: Ctx):
     outcome = {}
     pending = None
     for route in ROUTES:
+        if route == "memory-primitive" and kind not in ("dangling-rename", "dangling-drop"):
+            # the unreplicated (inspection) load is only asked about references: it performs the reference validation
+            # that the replicated load relies on, but it does not build the execution graph (no expanded identifiers,
+            # no cycle detection - observed on the pinned tree, and no execution path uses a primitive graph)
+            continue
         res = load(route, mdoc, platform, ctx)
         if res[0] == "hang":
             v = Violation("hang:%s@%s" % (kind, route), "load did not return within the guard | " + context)
@@ -350,9 +362,20 @@ def check_fault(case, ctx: Ctx):
 
 
 # ------------------------------------------------------------------------------------------------------------
-def _workflows():
-    return wfgen.workflows(max_components=5, max_stages=3, names="simple", methods=("ref",), allow_paths=False,
-                           allow_repeat=True, allow_shutdown=True, replicate_via_vars=True, max_n=3)
+@st.composite
+def _workflows(draw):
+    W = draw(wfgen.workflows(max_components=5, max_stages=3, names="simple", methods=("ref",), allow_paths=False,
+                             allow_repeat=True, allow_shutdown=True, replicate_via_vars=True, max_n=3))
+    # a third of the workflows reuse one component name in another stage (legal: identifiers are (stage, name))
+    comps = W["components"]
+    pairs = [(i, j) for i in range(len(comps)) for j in range(len(comps)) if comps[i]["stage"] != comps[j]["stage"]]
+    if pairs and draw(st.integers(0, 2)) == 0:
+        i, j = draw(st.sampled_from(pairs))
+        old = comps[i]["name"]
+        comps[i]["name"] = comps[j]["name"]
+        if not wfgen.unique_after_expansion(W):
+            comps[i]["name"] = old
+    return W
 
 
 @st.composite
